@@ -23,6 +23,7 @@ fn main() {
         match id {
             "C01" | "C02" | "C04" | "C05" | "C08" | "C16" => mc::checks::wscheck::replay(&v["case"]),
             "C06" => mc::checks::c06::replay(&v["case"]),
+            "C09" => mc::checks::c09::replay(&v["case"]),
             _ => {
                 eprintln!("no replay for {}", id);
                 std::process::exit(2)
@@ -38,6 +39,8 @@ fn main() {
         "C05" => mc::checks::c05::run(rep),
         "C06" => mc::checks::c06::run(rep),
         "C16" => mc::checks::c16::run(rep),
+        "C08" => mc::checks::c08::run(rep),
+        "C09" => mc::checks::c09::run(rep),
         _ => {
             eprintln!("unknown check {}", id);
             std::process::exit(2)
